@@ -260,6 +260,21 @@ def _u8(v):
     return Fr(int(v), 255)
 
 
+# scale of the PLANE values (colour, transparency, mask planes) of the document being evaluated:
+# 255 for 8-bit, 65535 for 16-bit, spec["maxv"] for 32-bit (stored float = value / maxv); attributes
+# (opacity, fill opacity, mask background, density) are bytes at every depth
+_PLANE_MAX = [255]
+
+
+def plane_max(spec):
+    d = spec.get("depth", 8)
+    return 255 if d == 8 else 65535 if d == 16 else int(spec.get("maxv", 1024))
+
+
+def _pv(v):
+    return Fr(int(v), _PLANE_MAX[0])
+
+
 def _visible(n):
     return bool(n.get("vis", True))
 
@@ -312,7 +327,7 @@ def _ref_mask(n, x, y):
     bb = m["bbox"]
     w = bb[2] - bb[0]
     if _inside(bb, x, y):
-        v = _u8(m["data"][(y - bb[1]) * w + (x - bb[0])])
+        v = _pv(m["data"][(y - bb[1]) * w + (x - bb[0])])
     else:
         v = _u8(m["bg"])
     d = m.get("density")
@@ -328,8 +343,8 @@ def _ref_element(st, n, clips, x, y, nch):
         bb = n["bbox"]
         if _inside(bb, x, y):
             i = (y - bb[1]) * (bb[2] - bb[0]) + (x - bb[0])
-            Cs = [_u8(n["color"][c][i]) for c in range(nch)]
-            fj = Fr(1) if n.get("noalpha") else _u8(n["alpha"][i])  # no transparency plane: opaque inside its box
+            Cs = [_pv(n["color"][c][i]) for c in range(nch)]
+            fj = Fr(1) if n.get("noalpha") else _pv(n["alpha"][i])  # no transparency plane: opaque inside its box
         else:
             Cs, fj = [Fr(1)] * nch, Fr(0)
         aj = fj
@@ -373,6 +388,7 @@ def ref_composite_px(spec, x, y, color=1.0, alpha=0.0, root=None):
     """Result of compositing the document (or the group node `root`, isolated per its blend mode) at (x, y):
     (C, f, a, stable) with C None where a == 0."""
     nch = NCH[spec["mode"]]
+    _PLANE_MAX[0] = plane_max(spec)
     C0 = [Fr(c).limit_denominator(1 << 24) for c in (color if isinstance(color, (list, tuple)) else [color] * nch)]
     a0 = Fr(alpha).limit_denominator(1 << 24)
     if root is None:
@@ -400,6 +416,7 @@ def ref_layer_entry_px(spec, path, x, y, color=1.0, alpha=0.0):
     """layer.composite() / composite(layer, as_layer=True): the single element (with its clipping layers, mask,
     opacities and blend mode) composited into a compositor that is isolated unless the layer is a pass-through group"""
     nch = NCH[spec["mode"]]
+    _PLANE_MAX[0] = plane_max(spec)
     C0 = [Fr(c).limit_denominator(1 << 24) for c in (color if isinstance(color, (list, tuple)) else [color] * nch)]
     a0 = Fr(alpha).limit_denominator(1 << 24)
     lst = spec["layers"]
@@ -436,6 +453,7 @@ def flat_normal_over(spec, x, y):
     """Second, even simpler oracle for flat stacks of visible Normal-mode layers without clipping/knockout:
     classic Porter-Duff 'over' on premultiplied colour.  -> (premultiplied colour list, alpha)"""
     nch = NCH[spec["mode"]]
+    _PLANE_MAX[0] = plane_max(spec)
     P, a = [Fr(0)] * nch, Fr(0)
     for n in spec["layers"]:
         if not _visible(n):
@@ -446,8 +464,8 @@ def flat_normal_over(spec, x, y):
         i = (y - bb[1]) * (bb[2] - bb[0]) + (x - bb[0])
         fm, qm = _ref_mask(n, x, y)
         fk = Fr(1) if n.get("fill") is None else _u8(n["fill"])
-        s = (Fr(1) if n.get("noalpha") else _u8(n["alpha"][i])) * fm * qm * fk * _u8(n["op"])
-        P = [_u8(n["color"][c][i]) * s + p * (1 - s) for c, p in enumerate(P)]
+        s = (Fr(1) if n.get("noalpha") else _pv(n["alpha"][i])) * fm * qm * fk * _u8(n["op"])
+        P = [_pv(n["color"][c][i]) * s + p * (1 - s) for c, p in enumerate(P)]
         a = s + a * (1 - s)
     return P, a
 
@@ -463,7 +481,7 @@ def _bm_enum(name):
     return BlendMode[name.upper()]
 
 
-def _attach_mask(layer, m, compression):
+def _attach_mask(layer, m, compression, spec=None):
     from psd_tools.constants import ChannelID
     from psd_tools.psd.layer_and_mask import ChannelData, ChannelInfo, MaskData, MaskFlags, MaskParameters
 
@@ -473,7 +491,8 @@ def _attach_mask(layer, m, compression):
     layer._record.mask_data = MaskData(top=bb[1], left=bb[0], bottom=bb[3], right=bb[2],
                                        background_color=int(m["bg"]), flags=flags, parameters=params)
     cd = ChannelData(compression)
-    cd.set_data(bytes(m["data"]), bb[2] - bb[0], bb[3] - bb[1], 8)
+    spec = spec or {}
+    cd.set_data(plane_bytes(spec, m["data"]), bb[2] - bb[0], bb[3] - bb[1], spec.get("depth", 8))
     if layer.is_group():
         # Group.new shares ONE ChannelDataList between the group record and its closing divider record;
         # give the group its own list before adding the mask plane (otherwise the saved file is inconsistent).
@@ -484,7 +503,7 @@ def _attach_mask(layer, m, compression):
     layer._channels.append(cd)
 
 
-def _apply_attrs(layer, n, compression):
+def _apply_attrs(layer, n, compression, spec=None):
     from psd_tools.constants import Tag
 
     layer.opacity = int(n["op"])
@@ -493,13 +512,33 @@ def _apply_attrs(layer, n, compression):
     if n.get("ko"):
         layer.tagged_blocks.set_data(Tag.KNOCKOUT_SETTING, 1)
     if n.get("mask"):
-        _attach_mask(layer, n["mask"], compression)
+        _attach_mask(layer, n["mask"], compression, spec)
+
+
+def plane_bytes(spec, values):
+    """the stored bytes of one plane at the document's depth"""
+    import struct
+
+    d = spec.get("depth", 8)
+    if d == 8:
+        return bytes(values)
+    if d == 16:
+        return b"".join(struct.pack(">H", v) for v in values)
+    mx = float(plane_max(spec))
+    return b"".join(struct.pack(">f", v / mx) for v in values)
 
 
 def _pil_for(spec, n):
     from PIL import Image
 
     mode = spec["mode"]
+    if spec.get("depth", 8) != 8:
+        # frompil only makes 8-bit planes: build a blank layer of the right geometry, the planes are written after
+        bb = n["bbox"]
+        w, h = bb[2] - bb[0], bb[3] - bb[1]
+        if mode == "CMYK":
+            return Image.new("CMYK", (w, h)), Image.new("L", (w, h), 255)
+        return Image.new({"L": "LA", "RGB": "RGBA"}[mode], (w, h)), None
     bb = n["bbox"]
     w, h = bb[2] - bb[0], bb[3] - bb[1]
     bands = []
@@ -531,13 +570,21 @@ def _build_nodes(psd, parent, nodes, spec, compression, c16_workaround):
                 w, h = im.size
                 layer._channels[0].set_data(sep_alpha.tobytes(), w, h, 8)
                 layer._record.channel_info[0].length = len(layer._channels[0].data) + 2
+            depth = spec.get("depth", 8)
+            if depth != 8:  # 16 / 32-bit documents: write every plane at the document's depth
+                w, h = im.size
+                planes = [n["alpha"]] + [n["color"][c] for c in range(NCH[spec["mode"]])]
+                assert [ci.id for ci in layer._record.channel_info] == list(range(-1, NCH[spec["mode"]]))
+                for ci, ch, pl in zip(layer._record.channel_info, layer._channels, planes):
+                    ch.set_data(plane_bytes(spec, pl), w, h, depth)
+                    ci.length = len(ch.data) + 2
             if n.get("noalpha"):
                 # a layer as third-party writers (and Photoshop's Background) store it: no channel -1
                 assert layer._record.channel_info[0].id == -1
                 del layer._record.channel_info[0]
                 layer._channels.pop(0)
             layer.blend_mode = _bm_enum(n["bm"])
-            _apply_attrs(layer, n, compression)
+            _apply_attrs(layer, n, compression, spec)
             parent.append(layer)
         else:
             layer = Group.new(n.get("name", "G"))
@@ -547,7 +594,7 @@ def _build_nodes(psd, parent, nodes, spec, compression, c16_workaround):
                 # keeps pass-through groups; one dedicated sub-check runs without this.
                 layer._setting.signature = b"8BIM"
             layer.blend_mode = _bm_enum(n["bm"])
-            _apply_attrs(layer, n, compression)
+            _apply_attrs(layer, n, compression, spec)
             parent.append(layer)
             _build_nodes(psd, layer, n["children"], spec, compression, c16_workaround)
         layer.visible = bool(n.get("vis", True))
@@ -566,7 +613,7 @@ def build_doc(spec, compression=None, c16_workaround=True):
 
     compression = Compression.RLE if compression is None else compression
     mode = spec["mode"] + ("A" if spec.get("docalpha") and spec["mode"] != "CMYK" else "")
-    psd = PSDImage.new(mode, tuple(spec["size"]))
+    psd = PSDImage.new(mode, tuple(spec["size"]), depth=spec.get("depth", 8))
     _build_nodes(psd, psd, spec["layers"], spec, compression, c16_workaround)
     psd._compute_clipping_layers()
     return psd
@@ -807,6 +854,48 @@ def gen_doc(rng, modes_by_docmode, max_layers=8, **kw):
     return {"mode": mode, "docalpha": rng.random() < 0.5, "size": [W, H], "layers": layers}
 
 
+def to_depth(rng, spec, depth, exact):
+    """re-express a generated 8-bit spec at depth 16 / 32.  exact=True keeps every plane value on the 8-bit
+    lattice (v*257 at 16 bit; float32(v/255) at 32 bit), so that the Coq model - whose planes are bytes - still
+    applies; exact=False also uses values between the lattice points (oracle streams only)."""
+    import copy
+
+    s = copy.deepcopy(spec)
+    s["depth"] = depth
+    if depth == 32:
+        s["maxv"] = 255 if exact else 1024
+    mx = plane_max(s)
+
+    for _, n in walk(s["layers"]):
+        node_to_depth(rng, s, n, exact)
+    return s
+
+
+def node_to_depth(rng, spec, n, exact=True):
+    """convert the 8-bit plane values of one generated node to the scale of spec (in place)"""
+    mx = plane_max(spec)
+    if mx == 255 and spec.get("depth", 8) == 8:
+        return n
+
+    def conv(v):
+        if not exact and v not in (0, 255) and rng.random() < 0.5:
+            return rng.randrange(mx + 1)          # a value between the 8-bit lattice points
+        return v * (mx // 255) if mx % 255 == 0 else round(v * mx / 255)
+    if n["k"] == "px":
+        n["color"] = [[conv(v) for v in c] for c in n["color"]]
+        n["alpha"] = [conv(v) for v in n["alpha"]]
+    if n.get("mask"):
+        n["mask"]["data"] = [conv(v) for v in n["mask"]["data"]]
+    return n
+
+
+def model_planes(spec, values):
+    """plane values as the bytes the Coq model expects (only for exact-lattice specs)"""
+    mx = plane_max(spec)
+    assert mx % 255 == 0 and all(v % (mx // 255) == 0 for v in values), "not on the 8-bit lattice"
+    return [v // (mx // 255) for v in values]
+
+
 def gen_backdrop(rng, nch):
     r = rng.random()
     if r < 0.5:
@@ -844,6 +933,8 @@ def features(spec):
             fs.add("knockout")
         if n.get("noalpha"):
             fs.add("no-transparency-plane")
+        if spec.get("depth", 8) != 8:
+            fs.add("depth-%d-bit" % spec["depth"])
         if not n.get("vis", True):
             fs.add("hidden")
         if n["op"] < 255:
@@ -880,10 +971,17 @@ def _rect(bb):
     return "(%d,%d,%d,%d)" % tuple(bb)
 
 
+_COQ_SPEC = [{}]
+
+
+def _zlp(values):
+    return _zl(model_planes(_COQ_SPEC[0], values))
+
+
 def coq_attrs(n):
     m = n.get("mask")
     if m:
-        ms = "(Some (MkMask %s %s %d %s %s))" % (_rect(m["bbox"]), _zl(m["data"]), m["bg"],
+        ms = "(Some (MkMask %s %s %d %s %s))" % (_rect(m["bbox"]), _zlp(m["data"]), m["bg"],
                                               "None" if m.get("density") is None else "(Some %d)" % m["density"],
                                               "true" if m.get("disabled") else "false")
     else:
@@ -896,7 +994,7 @@ def coq_attrs(n):
 def coq_node(n):
     if n["k"] == "px":
         # a layer without a transparency plane is opaque inside its box: for the model, an all-255 plane
-        return "(Px %s [%s] %s %s)" % (_rect(n["bbox"]), ";".join(_zl(c) for c in n["color"]), _zl(n["alpha"]), coq_attrs(n))
+        return "(Px %s [%s] %s %s)" % (_rect(n["bbox"]), ";".join(_zlp(c) for c in n["color"]), _zlp(n["alpha"]), coq_attrs(n))
     return "(Gr %s [%s] %s)" % ("true" if n["bm"] == "pass_through" else "false",
                                 ";".join(coq_node(c) for c in n["children"]), coq_attrs(n))
 
@@ -942,9 +1040,9 @@ def variants(spec):
         if n["k"] == "px":
             bb = n["bbox"]
             npx = (bb[2] - bb[0]) * (bb[3] - bb[1])
-            if any(v != 255 for v in n["alpha"]):
+            if any(v != plane_max(spec) for v in n["alpha"]):
                 s = copy.deepcopy(spec)
-                at(s, path)[path[-1]]["alpha"] = [255] * npx
+                at(s, path)[path[-1]]["alpha"] = [plane_max(spec)] * npx
                 yield s
             if any(len(set(c)) > 1 for c in n["color"]):
                 s = copy.deepcopy(spec)
@@ -1013,6 +1111,7 @@ def scaled_outputs(c, s, a):
 
 def coq_case(spec, color, alpha, vp, outs, tol=210):
     nch = NCH[spec["mode"]]
+    _COQ_SPEC[0] = spec
     cols = list(color) if isinstance(color, (tuple, list)) else [color] * nch
     fr = lambda v: "(%d,%d)" % (Fr(v).numerator, Fr(v).denominator)
     return "(MkCase %s %d%%nat (%d,%d,%d,%d) [%s] %s %d %s)" % (
